@@ -494,3 +494,52 @@ func ZZ_C12_history3() {
 		zz.Assert(zzSameState(w), "C12.post-state/history")
 	}
 }
+
+// ZZ_C12_addr_step: Addr yields the address of the nearest enclosing binding
+// when that binding is addressable, an error when it is not or when the name
+// is unbound; it changes nothing.
+func ZZ_C12_addr_step() {
+	w := zzWorldShape(zz.Choose(3), false)
+	cells := make([]*int64, len(w.real))
+	for i := range w.real {
+		// each scope may bind "a" to an addressable cell of the harness
+		if zz.Choose(2) == 1 {
+			c := new(int64)
+			*c = zz.Int64()
+			cells[i] = c
+			if w.real[i].values == nil {
+				w.real[i].values = map[string]reflect.Value{}
+				w.model[i].vals = map[string]zzBinding{}
+			}
+			w.real[i].values["a"] = reflect.ValueOf(c).Elem()
+			w.model[i].vals["a"] = zzBinding{v: *c}
+		}
+	}
+	t := zz.Choose(len(w.real))
+	var got reflect.Value
+	var err error
+	p := zzGuard(func() { got, err = w.real[t].Addr("a") })
+	zz.Assert(!p, "C12.no-panic/Addr+cells")
+	// nearest binding of "a"
+	near := -1
+	for s := t; s >= 0; s = w.model[s].parent {
+		if _, has := w.model[s].vals["a"]; has {
+			near = s
+			break
+		}
+	}
+	switch {
+	case near < 0:
+		zz.Assert(err != nil, "C12.result/Addr-unbound-is-error")
+	case cells[near] == nil:
+		zz.Assert(err != nil, "C12.result/Addr-of-unaddressable-binding-is-error")
+	default:
+		zz.Assert(err == nil && got.IsValid() && got.Kind() == reflect.Ptr, "C12.result/Addr")
+		if err == nil && got.IsValid() && got.Kind() == reflect.Ptr {
+			ptr, ok := got.Interface().(*int64)
+			zz.Assert(ok && ptr == cells[near], "C12.value/Addr-is-the-nearest-binding")
+		}
+	}
+	zz.Assert(zzSameState(w), "C12.post-state/Addr")
+	zz.Assert(zz.LocksHeld() == 0, "C12.no-lock-left-held/Addr")
+}
